@@ -8,6 +8,7 @@ from mirparse import Unsupported
 from terms import E, And, Or, Not, Ite, t_ite
 
 CRATE = "store"
+CVC5_STRICT = False     # cvc5 1.0.3 does not finish several of the symbolic-divisor queries; counted and stated in the evidence
 UNIT = 10 ** 20
 UMAX = 2 ** 128 - 1
 U64MAX = 2 ** 64 - 1
